@@ -7,6 +7,9 @@ CHECKS = {
  "C03": ("Bit-field accessor arithmetic: Gallina model of bitfield_unit.rs (little/big endian, u64 and usize paths) proved equal to a bit-vector reference for every storage, offset, width and value under the guard width+offset%8<=64; the guard is shown necessary by a refutation witness (known finding). Model tied to the code by exhaustive differential execution of the verbatim source (release and debug semantics, all 8 entry points) against the OCaml extraction.",
          "Coq kernel; ExtrOcamlBasic extraction; OCaml driver; Rust integer semantics transcribed by hand; allocation of units and accessor codegen exercised end-to-end only",
          "Coq proof (bit-level extensionality) + extraction-based correspondence sweep", "DESIGN.md §6 C03"),
+ "C13": ("Flag round trip: for the ~93 table-driven option rows a generic theorem (wf tables => parse(print o) agrees with o on every printed field, print is stable, defaults agree; the leading-dash hazard and a missing flag are shown to break it) is instantiated on the tables regenerated from options/mod.rs and options/cli.rs each run (including secondary effects of builder methods); command_line_flags compared with the model inside Coq; every Builder method (also the custom, unmodelled ones), boolean pairs and random configurations are round-tripped on the real library (flags and generated bindings), as is every clap flag in the CLI->builder->flags direction.",
+         "Coq kernel; translator for options!/clap struct/apply_args!; clap's grammar modelled by hand; custom as_args closures exercised dynamically only",
+         "Coq proof (codec round trip over regenerated tables) + in-Coq differential check + dynamic round trips", "DESIGN.md §6 C13"),
  "C14": ("Feature gating: monotonicity, nightly-top, not-too-early w.r.t. a release-notes specification, edition rules and defaults proved for ANY feature table and re-instantiated on the table regenerated from features.rs each run; RustFeatures::new compared with the model on every minor/edition inside Coq; CLI token scan per target.",
          "Coq kernel; translator for the two macro invocations; Spec.v stabilisation table hand-written from release notes; macro bodies transcribed by hand and tied by the exhaustive differential run",
          "Coq proof over regenerated table + in-Coq differential check", "DESIGN.md §6 C14"),
